@@ -59,12 +59,13 @@ func init() {
 		LevelNote: "Trusts go/types and the analyser (fixtures run every time). Does not decide value-level effects inside write() (the separating space / '<?php ' insertion are enumerated by print-inserts under C02).",
 		Technique: "static analysis: typed-AST slot-event extraction + path enumeration over all printer methods; helper shape verification",
 		Engine:    "visitors",
-		Explanation: "print-slots: for each of the printer's visitor methods and each path, the sequence of primary arguments of printToken/printNode/printList/printSeparatedList equals the struct's token/child fields in declaration order, each once (alternative-syntax idiom modelled: a child StmtStmtList printed in place must have all of its own slots printed once in order); print-local: arguments and conditions refer only to the node being printed and printer state; defaults are nil, constants, n.Value or nil-selectors over own slots. print-helpers: printToken writes free-floating values in order then the token value when present, else the default; printSeparatedList interleaves item k with separators[k], else the default between items only; printList/printNode visit each non-nil element once; write emits its argument exactly once, last.",
+		Explanation: "print-slots: for each of the printer's visitor methods and each path, the sequence of primary arguments of printToken/printNode/printList/printSeparatedList equals the struct's token/child fields in declaration order, each once (alternative-syntax idiom modelled: a child StmtStmtList printed in place must have all of its own slots printed once in order); print-local: arguments and conditions refer only to the node being printed and printer state; defaults are nil, constants, n.Value or nil-selectors over own slots. print-helpers: printToken writes free-floating values in order then the token value when present, else the default; printSeparatedList interleaves item k with separators[k], else the default between items only; printList/printNode visit each non-nil element once; write emits its argument exactly once, last. byte-class: the predicate that decides where write adds a separating space equals PHP's label-character class on all 256 bytes (and so does the scanner's).",
 		Assumptions: []string{"declaration order of pkg/ast fields is source order (decided by rule `order` on the grammar actions, C02/C05)"},
 		TrustedBase: baseTrusted,
 		Floors: []report.Floor{
 			{Rule: "print-slots", What: "methods", Min: 155},
 			{Rule: "print-helpers", What: "helpers", Min: 10},
+			{Rule: "byte-class", What: "evaluations", Min: 768},
 		},
 		Run: func(c *Ctx) {
 			c.visitorRule("print-slots", visitors.PrintSlots)
@@ -76,6 +77,7 @@ func init() {
 			if p, tb, ok := c.RepoProgram(false); ok {
 				c.Add(visitors.PrintHelpers(p, tb))
 			}
+			c.byteClasses()
 		},
 	}
 
@@ -118,13 +120,14 @@ func init() {
 		LevelNote: "Trusted: go/types, the 3-variable zone domain implementation (closure by Floyd-Warshall; exact for integer difference constraints) and the analyser's small statement language (anything outside it is undecided and fails). Go's make returns fresh storage.",
 		Technique: "static analysis: typestate/abstract interpretation over a zone domain with who-touches check across the module",
 		Engine:    "small",
-		Explanation: "pool-typestate on pkg/token.Pool and pkg/position.Pool: constructor establishes off=0, block=make([]T,blockSize); Get paths enumerated and executed symbolically; obligations per path: bounds, no re-issue (index >= entry offset unless the block is fresh), offset advances beyond the returned index, invariant preserved, nil return infeasible for len(block) >= 1. who-touches: no other function in the module reads or writes Pool.block/Pool.off; no Pool literal outside the constructor; all NewPool call sites pass a positive constant.",
+		Explanation: "pool-typestate on pkg/token.Pool and pkg/position.Pool: constructor establishes off=0, block=make([]T,blockSize); Get paths enumerated and executed symbolically; obligations per path: bounds, no re-issue (index >= entry offset unless the block is fresh), offset advances beyond the returned index, invariant preserved, nil return infeasible for len(block) >= 1. who-touches: no other function in the module reads or writes Pool.block/Pool.off; no Pool literal outside the constructor; all NewPool call sites pass a positive constant. builder-ends: every position combinator of internal/position obtains one object from the pool per call and returns that object (never an argument's position), so distinct nodes never share a Position.",
 		Assumptions: []string{"block size >= 1 (the property's own precondition; all call sites in the module are checked to pass a positive constant)"},
 		TrustedBase: append([]string{"zone domain over {0, off, len(block)} in internal/small/pool.go"}, baseTrusted...),
 		Floors: []report.Floor{
 			{Rule: "pool-typestate", What: "pools", Min: 2},
 			{Rule: "pool-typestate", What: "get-paths", Min: 6},
 			{Rule: "pool-typestate", What: "ctor-calls", Min: 3},
+			{Rule: "builder-ends", What: "combinators", Min: 12},
 		},
 		Run: func(c *Ctx) {
 			c.Fixture("mini", "pool-typestate", false, func(p *load.Program, tb *kinds.Table) *report.RuleResult {
@@ -133,6 +136,8 @@ func init() {
 			if p, _, ok := c.RepoProgram(false); ok {
 				c.Add(small.PoolRule(p, "pkg/token", "pkg/position"))
 			}
+			// the position builder is the only client of the position pool: it must hand out exactly the object it obtained
+			c.builderEnds()
 		},
 	}
 
